@@ -194,7 +194,7 @@ PROPS = {
         "lean_modules": ["TableauVerif.Props.C16"],
         "oracles": ["c16.hist"],
         "streams": [
-            ("e2e.C16.history", 96, 900, 8),
+            ("e2e.C16.history", 140, 1200, 8),
         ],
         "assumptions": [
             "every history is executed in ONE child process and its last call again in a FRESH child process (real GenProto/GenConf on generated inputs that reuse package, workbook, sheet, enum and column names); observation = files written (hashes) or error code of the last call",
@@ -374,13 +374,16 @@ PROPS = {
     },
     "C14": {
         "lean_modules": ["TableauVerif.Props.C14", "TableauVerif.Props.C14Pins"],
-        "oracles": ["c14.merge", "c14.fieldsep", "c14.fieldsubsep", "c14.e2e"],
+        "oracles": ["c14.merge", "c14.fieldsep", "c14.fieldsubsep", "c14.e2e", "c12.refer"],
         "streams": [
             ("corr.parseroptions.mergeHeader", 3000, 200000),
             ("corr.confgen.fieldSep", 400, 4000),
             ("corr.protogen.record", 2000, 100000),
             ("corr.protogen.recordDoc", 2000, 100000),
             ("e2e.C14", 600, 20000),
+            # confgen's second reader of a worksheet (the refer check) must resolve the same header rows: referred
+            # sheets whose rows are moved by the global header options or by the book-level '#' row
+            ("e2e.C12.refer", 300, 12000),
         ],
         "assumptions": [
             "modelled: MergeHeader, GetSep/GetSubsep, parseFieldDescriptor(sep part), newBookParser/newTableParser option recording; "
